@@ -262,6 +262,13 @@ pub fn run_c18(tier: &str) -> i32 {
                 v.push((format!("command writing {n} bytes to {what}"), t));
             }
         }
+        // one directive with very many continuation lines
+        for d in ["temp t.out", "write w", ""] {
+            let mut t = Tree::new();
+            let body: String = std::iter::repeat("-x\n").take(60000).collect();
+            tfile(&mut t, "s.txt.txtpp", format!("top\n-TXTPP#{d}\n{body}END\n"));
+            v.push((format!("directive {d:?} with 60000 continuation lines"), t));
+        }
         // many sources named one by one, the first one fails: its error arrives while the results of all the
         // others are still on their way (more results than any bounded queue of a few slots per thread holds)
         let mut many = Tree::new();
